@@ -92,6 +92,7 @@ fn bus_class<S: Setup>(prog: &Prog, p: &Pipeline<S>, cfg: &PackCfg) -> Option<St
     let built = p.built.as_ref()?;
     let traces = p.traces.as_ref()?;
     let recompose = prog.recompose_npo && S::D > 1;
+    let _rc = p3r_verif::fields::RecomposeCfg::set(prog.recompose_cfg());
     let events = guarded(|| S::bus(&built.circuit, traces, &cfg.packing(), recompose)).ok()?.ok()?;
     let mut npo_slots = std::collections::BTreeSet::new();
     for op in &built.circuit.ops {
@@ -158,6 +159,7 @@ fn npo_imbalance<S: Setup>(prog: &Prog, p: &Pipeline<S>, cfg: &PackCfg) -> bool 
     }
     let (Some(traces), Some(cpd)) = (p.traces.as_ref(), p.cpd.as_ref()) else { return false };
     let recompose = prog.recompose_npo && S::D > 1;
+    let _rc = p3r_verif::fields::RecomposeCfg::set(prog.recompose_cfg());
     let prover = S::prover_x(cfg.packing(), recompose, true);
     matches!(guarded(|| S::prove(&prover, traces, cpd)), Err(m) if m.contains("Lookup mismatch"))
 }
@@ -172,7 +174,8 @@ fn signature<S: Setup>(prog: &Prog, p: &Pipeline<S>, cfg: &PackCfg) -> Option<St
             Some(format!("unprovable/bus-imbalance/{}", bus_class::<S>(prog, p, cfg).unwrap()))
         }
         "prove" | "verify" if npo_imbalance::<S>(prog, p, cfg) => {
-            Some("unprovable/bus-imbalance/npo-table-slot".to_string())
+            // keyed by what the op list says about the plugin rows: the bare key absorbed a seed
+            Some(format!("unprovable/bus-imbalance/npo-table-slot/{}", p3r_verif::bus::npo_static_cause(&p.built.as_ref().unwrap().circuit)))
         }
         _ => {
             let tags = shape_tags::<S>(prog, p);
@@ -249,6 +252,12 @@ fn one<S: Setup>(prog: &Prog, publics: &[S::E], privates: &[S::E], cfg: &PackCfg
         r = r.count(format!("shape/{t}"), 1);
     }
     r = r.count(format!("setup/{}", S::NAME), 1).count(format!("cfg/{}", cfg.key()), 1);
+    if prog.recompose_npo && S::D > 1 {
+        let (lanes, split) = prog.recompose_cfg();
+        let rows = p.built.as_ref().map_or(0, |b| b.circuit.ops.iter().filter(|o| matches!(o, Op::NonPrimitiveOpWithExecutor { .. })).count());
+        let verified = p.verify.is_ok() && p.prove.is_ok();
+        r = r.count(format!("recompose-tables/{}-lanes{lanes}/{}/{}", if split { "split-coeff" } else { "standard" }, if rows >= 2 { "rows>=2" } else { "rows<2" }, if verified { "verified" } else { "not-verified" }), 1);
+    }
     if sample {
         r = r.with_sample(json!({"setup": S::NAME, "packing": cfg.json(), "stmts": prog.stmts.len(),
             "prog": prog.stmts.iter().take(20).map(|s| format!("{s:?}")).collect::<Vec<_>>(), "stages": p.stages_json()}));
@@ -267,6 +276,7 @@ fn case<S: Setup>(seed: u64, idx: usize, tier: Tier) -> Vec<CaseResult> {
     let opts = GenOpts {
         size,
         recompose_npo: matches!(S::D, 2 | 4 | 5) && rng.random_range(0..3u32) == 0,
+        recompose_variants: true,
         clean: idx % 4 != 3,
         ..Default::default()
     };
@@ -369,6 +379,7 @@ fn directed<S: Setup>() -> Vec<CaseResult> {
         let prog = Prog {
             stmts,
             recompose_npo: false,
+            recompose_variant: 0,
         };
         // choose inputs = 3 for every input, then fix up connects by evaluating: simple shapes only
         let np = prog.n_public();
@@ -420,6 +431,65 @@ fn directed<S: Setup>() -> Vec<CaseResult> {
             for cfg in [PackCfg::default_cfg(), PackCfg { public_lanes: 2, alu_lanes: 3, min_height: 1, horner_k: 2, optimized_profile: false }] {
                 let key = format!("{}:directed:first-use:{name}:{}", S::NAME, cfg.key());
                 out.push(one::<S>(&prog, &pu, &pr, &cfg, key, false).count("directed/first-use", 1));
+            }
+        }
+    }
+    // recompose tables dense in rows, every flavour / lane count: n extension publics are
+    // decomposed (one table row each), every coefficient is read by the ALU, and the coefficients
+    // of every other value are supplied again as fresh inputs and recomposed (a second kind of row)
+    if matches!(S::D, 2 | 4 | 5) {
+        for variant in 0u8..5 {
+            for n in [2usize, 3, 5] {
+                let mut stmts = vec![Stmt::Public];
+                let mut publics = vec![S::el(&[7])];
+                let mut acc = 0usize;
+                let mut nv = 1usize;
+                for k in 0..n {
+                    let x = nv;
+                    stmts.push(Stmt::Public);
+                    nv += 1;
+                    let cs: Vec<u64> = (0..S::D).map(|i| 1 + (k as u64) + 10u64.pow(i as u32 % 4)).collect();
+                    publics.push(S::el(&cs));
+                    stmts.push(Stmt::DecomposeExt(x));
+                    let coeffs: Vec<usize> = (nv..nv + S::D).collect();
+                    nv += S::D;
+                    for cidx in &coeffs {
+                        stmts.push(Stmt::Add(acc, *cidx));
+                        acc = nv;
+                        nv += 1;
+                    }
+                    // every other value is also rebuilt from fresh coefficient inputs (a row whose
+                    // inputs are not hint outputs), through the flavour's own entry point
+                    if k % 2 == 1 {
+                        let fresh: Vec<usize> = (0..S::D)
+                            .map(|i| {
+                                stmts.push(Stmt::Public);
+                                publics.push(S::el(&[cs[i]]));
+                                nv += 1;
+                                nv - 1
+                            })
+                            .collect();
+                        stmts.push(Stmt::RecomposeExt(fresh, if variant >= 2 { 1 } else { 0 }));
+                        let r = nv;
+                        nv += 1;
+                        stmts.push(Stmt::Mul(r, x));
+                        nv += 1;
+                    }
+                }
+                let prog = Prog { stmts, recompose_npo: true, recompose_variant: variant };
+                let ev = eval::<S>(&prog, &publics, &[]);
+                if !ev.all_hold() {
+                    out.push(CaseResult::inconclusive(format!("{}:directed:recompose-dense:v{variant}:n{n}", S::NAME), "directed recompose program does not hold in the reference evaluator"));
+                    continue;
+                }
+                for cfg in [PackCfg::default_cfg(), PackCfg { public_lanes: 2, alu_lanes: 3, min_height: 1, horner_k: 2, optimized_profile: false }] {
+                    let key = format!("{}:directed:recompose-dense:v{variant}:n{n}:{}", S::NAME, cfg.key());
+                    if std::env::var("P3R_DEBUG_DENSE").is_ok() {
+                        let pp = run_pipeline::<S>(&prog, &publics, &[], &cfg, false, true);
+                        eprintln!("DENSE {key} {} sig={:?}", pp.stages_json(), signature::<S>(&prog, &pp, &cfg));
+                    }
+                    out.push(one::<S>(&prog, &publics, &[], &cfg, key, false).count("directed/recompose-dense", 1));
+                }
             }
         }
     }
